@@ -505,11 +505,24 @@ func runBounds(c *core.Ctx) {
 		name := kn(c.P.FuncName(fn))
 		// "taglist": the handler that marshals a tag list
 		isTagList := false
-		an.Instrs(fn, func(in ssa.Instruction) {
-			if al, ok := in.(*ssa.Alloc); ok && isNamedType(an.Deref(al.Type()), c.P.Module+"/types", "TagList") {
-				isTagList = true
+		buildsTagList := func(f *ssa.Function) bool {
+			found := false
+			an.Instrs(f, func(in ssa.Instruction) {
+				if al, ok := in.(*ssa.Alloc); ok && isNamedType(an.Deref(al.Type()), c.P.Module+"/types", "TagList") {
+					found = true
+				}
+			})
+			return found
+		}
+		isTagList = buildsTagList(fn)
+		if !isTagList {
+			// a paging step of that handler
+			for _, site := range c.P.Callers(fn) {
+				if site.Parent() != nil && site.Common().StaticCallee() == fn && buildsTagList(site.Parent()) {
+					isTagList = true
+				}
 			}
-		})
+		}
 		if isTagList {
 			c.SetTags("taglist")
 		} else {
